@@ -1641,6 +1641,7 @@ def _generic_rules(chk):
     _g.rule_group_names(chk, idx_, _Res(idx_), 'C03.groups', 'recognizers_number', None, floor=1)
     _g.rule_filter_predicates(chk, idx_, 'C03.filters', 'recognizers_number', floor=5)
     _g.rule_index_guards(chk, idx_, 'C03.index-guards', 'recognizers_number.', floor=0, exempt={('BaseNumberParser._frac_like_number_parse', 'i < len(frac_words) - 1'): 'deliberately one short: a fraction separator word in the last position has no numerator after it (frac_words[i + 1:] would be empty)'})
+    _g.rule_kind_contradictions(chk, idx_, 'C03.offset-kinds', 'recognizers_number.', floor=25)
 
 
 _run_before_generic = run
